@@ -2,8 +2,9 @@
 (***************************************************************************)
 (* LAYER 3 -- the network-simplex layerer (internal/phase2/                *)
 (* network_simplex.go) transcribed statement by statement as pure          *)
-(* operators over an explicit state record, for unit weights and unit      *)
-(* minimum lengths (phase 2).  Same loops, same data structures, same      *)
+(* operators over an explicit state record, with per-edge weights and      *)
+(* minimum lengths (all 1 in phase 2; the positioner's auxiliary graph     *)
+(* uses both).  Same loops, same data structures, same                     *)
 (* iteration orders as the Go code:                                        *)
 (*   es.p          the edge list g.Edges (sequence of <<from, to>>)        *)
 (*   es.inl[n], es.outl[n]  the node's edge lists n.In / n.Out, in list    *)
@@ -29,12 +30,12 @@ E(es) == DOMAIN es.p
 In(es, n)  == es.inl[n]
 Out(es, n) == es.outl[n]
 \* the lists of a graph populated from an edge list on which phase 1 reversed nothing: edge-list order
-MkAdj(NN, pairs) == [p |-> pairs,
+MkAdj(NN, pairs) == [p |-> pairs, w |-> [i \in DOMAIN pairs |-> 1], d |-> [i \in DOMAIN pairs |-> 1],
                      inl  |-> [n \in 1..NN |-> SelectSeq([i \in DOMAIN pairs |-> i], LAMBDA i : pairs[i][2] = n)],
                      outl |-> [n \in 1..NN |-> SelectSeq([i \in DOMAIN pairs |-> i], LAMBDA i : pairs[i][1] = n)]]
 Visit(es, n) == In(es, n) \o Out(es, n)
 Other(es, e, n) == IF es.p[e][2] # n THEN es.p[e][2] ELSE es.p[e][1]
-Slack(es, e, r) == r[es.p[e][2]] - r[es.p[e][1]] - 1
+Slack(es, e, r) == r[es.p[e][2]] - r[es.p[e][1]] - es.d[e]          \* es.d[e] = the edge's minimum length (Delta)
 
 \* ---- initLayers: Kahn's sweep from the sources in node order, layer = longest path from a source
 RECURSIVE InitSweep(_, _, _, _, _)
@@ -47,7 +48,7 @@ InitSweep(es, NN, queue, unseen, r) ==
                  IF k = 0 THEN [q |-> Tail(queue), u |-> unseen, rr |-> r]
                  ELSE LET p == step[k - 1]
                           m == es.p[outs[k]][2]
-                          rr2 == [p.rr EXCEPT ![m] = IF @ > p.rr[n] + 1 THEN @ ELSE p.rr[n] + 1]
+                          rr2 == [p.rr EXCEPT ![m] = IF @ > p.rr[n] + es.d[outs[k]] THEN @ ELSE p.rr[n] + es.d[outs[k]]]
                           u2 == [p.u EXCEPT ![m] = @ - 1]
                       IN [q |-> IF u2[m] = 0 THEN Append(p.q, m) ELSE p.q, u |-> u2, rr |-> rr2]
              fin == step[Len(outs)]
@@ -99,9 +100,9 @@ Numbering(es, NN, T) == Walk(es, 1, [vis |-> {}, low |-> [n \in 1..NN |-> 0], li
 \* ---- inHeadComponent, setCutValues
 InHead(es, n, e, lm, lw) == LET u == es.p[e][1] v == es.p[e][2] IN
     IF lm[u] < lm[v] THEN ~(lw[u] <= lm[n] /\ lm[n] <= lm[u]) ELSE lw[v] <= lm[n] /\ lm[n] <= lm[v]
-CutOf(es, e, T, lm, lw) == 1 + SumOver([f \in E(es) |-> IF f \in T THEN 0
-        ELSE IF ~InHead(es, es.p[f][1], e, lm, lw) /\  InHead(es, es.p[f][2], e, lm, lw) THEN  1
-        ELSE IF  InHead(es, es.p[f][1], e, lm, lw) /\ ~InHead(es, es.p[f][2], e, lm, lw) THEN -1 ELSE 0], E(es))
+CutOf(es, e, T, lm, lw) == es.w[e] + SumOver([f \in E(es) |-> IF f \in T THEN 0          \* es.w[e] = the edge's weight
+        ELSE IF ~InHead(es, es.p[f][1], e, lm, lw) /\  InHead(es, es.p[f][2], e, lm, lw) THEN  es.w[f]
+        ELSE IF  InHead(es, es.p[f][1], e, lm, lw) /\ ~InHead(es, es.p[f][2], e, lm, lw) THEN -es.w[f] ELSE 0], E(es))
 NewCut(es, T, lm, lw, old) == [e \in E(es) |-> IF e \in T THEN (IF ACCUMULATE THEN old[e] ELSE 0) + CutOf(es, e, T, lm, lw) ELSE old[e]]
 
 \* ---- negCutValueTreeEdge (first in edge order), minSlackNonTreeEdge (first of minimum slack from head to tail component)
@@ -160,6 +161,31 @@ VBalance(es, NN, r) ==
     IN VBal(es, NN, 1, r, lsize, lmax)
 BalanceStep(es, NN, st) == [st EXCEPT !.phase = "done", !.rank = VBalance(es, NN, Normalize(NN, st.rank))]
 
+\* ---- hbalance (the positioner's balancing): every zero-cut tree edge, in edge order, shifts the subtree on its
+\* lower-numbered side by the slack of the minimum-slack edge from its head to its tail component; lim/low and the
+\* cut values are those of the final tree and are not recomputed while nodes move
+RECURSIVE Adjust(_, _, _, _, _), AdjFold(_, _, _, _, _, _)
+Adjust(es, st, n, delta, r) ==
+    LET r1 == [r EXCEPT ![n] = @ - delta]
+        r2 == AdjFold(es, st, Out(es, n), n, delta, r1)
+    IN AdjFold(es, st, In(es, n), n, delta, r2)
+AdjFold(es, st, q, n, delta, r) ==
+    IF q = <<>> THEN r
+    ELSE LET e == Head(q) m == Other(es, e, n)
+         IN IF e \in st.tree /\ ~(st.lim[n] < st.lim[m]) THEN AdjFold(es, st, Tail(q), n, delta, Adjust(es, st, m, delta, r))
+            ELSE AdjFold(es, st, Tail(q), n, delta, r)
+RECURSIVE HBal(_, _, _, _)
+HBal(es, st, e, r) ==
+    IF e > Len(es.p) THEN r
+    ELSE IF e \notin st.tree \/ st.cut[e] # 0 THEN HBal(es, st, e + 1, r)
+    ELSE LET f == Enter(es, [st EXCEPT !.rank = r], e) IN
+         IF f = 0 THEN HBal(es, st, e + 1, r)
+         ELSE LET d == Slack(es, f, r) IN
+              IF d < 1 THEN HBal(es, st, e + 1, r)
+              ELSE IF st.lim[es.p[e][1]] < st.lim[es.p[e][2]] THEN HBal(es, st, e + 1, Adjust(es, st, es.p[e][1], d, r))
+              ELSE HBal(es, st, e + 1, Adjust(es, st, es.p[e][2], -d, r))
+HBalanceStep(es, NN, st) == [st EXCEPT !.phase = "done", !.rank = Normalize(NN, HBal(es, st, 1, Normalize(NN, st.rank)))]
+
 \* ---- the whole algorithm as a function (used to predict the layers the real code assigns)
 InitState(es, NN) == [phase |-> "tree", rank |-> InitRank(es, NN), tree |-> {}, cut |-> [e \in E(es) |-> 0],
                       lim |-> [n \in 1..NN |-> 0], low |-> [n \in 1..NN |-> 0], iter |-> 0, capped |-> FALSE, stuck |-> FALSE]
@@ -173,10 +199,17 @@ RunFrom(es, NN, st, maxiter, fuel) ==
     IF st.phase \in {"done", "panic_no_incident_edge"} \/ fuel = 0 THEN st
     ELSE RunFrom(es, NN, Step(es, NN, st, maxiter), maxiter, fuel - 1)
 RunNS(es, NN, maxiter) == RunFrom(es, NN, InitState(es, NN), maxiter, 400)
+\* the positioner's variant: horizontal balancing at the end
+RECURSIVE RunFromH(_, _, _, _, _)
+RunFromH(es, NN, st, maxiter, fuel) ==
+    IF st.phase \in {"done", "panic_no_incident_edge"} \/ fuel = 0 THEN st
+    ELSE IF st.phase = "balance" THEN HBalanceStep(es, NN, st)
+    ELSE RunFromH(es, NN, Step(es, NN, st, maxiter), maxiter, fuel - 1)
+RunNSH(es, NN, maxiter) == RunFromH(es, NN, InitState(es, NN), maxiter, 4000)
 
 \* ---- what the mechanism must establish
 Feasible(es, r) == \A e \in E(es) : Slack(es, e, r) >= 0
-TotalLen(es, r) == SumOver([e \in E(es) |-> r[es.p[e][2]] - r[es.p[e][1]]], E(es))
+TotalLen(es, r) == SumOver([e \in E(es) |-> es.w[e] * (r[es.p[e][2]] - r[es.p[e][1]])], E(es))
 \* a set of edges is a spanning tree of the (connected) graph: n-1 edges, no cycle (every node reachable from 1 through them)
 RECURSIVE TreeReach(_, _, _)
 TreeReach(es, T, S) == LET S2 == S \cup {es.p[e][2] : e \in {f \in T : es.p[f][1] \in S}} \cup {es.p[e][1] : e \in {f \in T : es.p[f][2] \in S}}
